@@ -27,6 +27,7 @@ import (
 	"pgregory.net/rapid"
 
 	"github.com/cloudflare/pint/internal/config"
+	"github.com/cloudflare/pint/internal/discovery"
 	"github.com/cloudflare/pint/verifharness/hist"
 	"github.com/cloudflare/pint/verifharness/lint"
 	"github.com/cloudflare/pint/verifharness/vstat"
@@ -140,6 +141,10 @@ type expectation struct {
 	goneNoDeps   int // (kind, name) gone at HEAD without dependants
 	replaced     int // (kind, name) with fewer rules at HEAD than at the fork point, or living in other files now
 	viaMatcher   int // dependants that exist only through a __name__ matcher
+	// invalid rules (rule-level defects) present at HEAD, and expected warnings on rules removed
+	// from a file whose HEAD version still exists (same path) and holds an invalid rule
+	invalidAtHead     int
+	warnNextToInvalid int
 }
 
 func expected(h hist.History, rx relax) (expectation, error) {
@@ -158,6 +163,11 @@ func expected(h hist.History, rx relax) (expectation, error) {
 		rules := f.File.Rules()
 		_, infos := hist.Render(f.File)
 		for i, r := range rules {
+			if !r.Valid() {
+				// a rule that does not parse provides nothing and is no dependant
+				ex.invalidAtHead++
+				continue
+			}
 			u, err := usesOf(r.Expr)
 			if err != nil {
 				return ex, fmt.Errorf("%w: generated expression %q does not parse: %v", errHarness, r.Expr, err)
@@ -195,6 +205,9 @@ func expected(h hist.History, rx relax) (expectation, error) {
 	forkFiles := map[string]map[string]bool{}
 	for _, f := range fork {
 		for _, r := range f.File.Rules() {
+			if !r.Valid() {
+				continue
+			}
 			forkCount[r.NameKey()]++
 			if forkFiles[r.NameKey()] == nil {
 				forkFiles[r.NameKey()] = map[string]bool{}
@@ -206,7 +219,11 @@ func expected(h hist.History, rx relax) (expectation, error) {
 	for _, f := range fork {
 		rules := f.File.Rules()
 		_, infos := hist.Render(f.File)
+		hf, stillThere := head.Get(f.Path)
 		for i, r := range rules {
+			if !r.Valid() {
+				continue
+			}
 			k := r.NameKey()
 			if headCount[k] > 0 {
 				if !seen[k] {
@@ -232,6 +249,9 @@ func expected(h hist.History, rx relax) (expectation, error) {
 				} else {
 					ex.goneNoDeps++
 				}
+			}
+			if len(deps) > 0 && stillThere && hf.File.InvalidCount() > 0 {
+				ex.warnNextToInvalid++
 			}
 			if len(deps) > 0 {
 				ex.warns = append(ex.warns, Warn{Path: f.Path, Line: infos[i].First, Name: r.Name, Severity: "Warning", Deps: deps})
@@ -309,7 +329,7 @@ func parseDetails(details string) []Dep {
 	return out
 }
 
-func observeInProcess(repo *hist.Repo, cfg config.Config) ([]Warn, error) {
+func observeInProcess(repo *hist.Repo, cfg config.Config, h hist.History) ([]Warn, error) {
 	found := repo.Discover(50)
 	if found.Panic != nil {
 		return nil, fmt.Errorf("pint's discovery panicked: %v\n%s", found.Panic, found.Stack)
@@ -317,10 +337,31 @@ func observeInProcess(repo *hist.Repo, cfg config.Config) ([]Warn, error) {
 	if found.Err != nil {
 		return nil, fmt.Errorf("pint's discovery failed on a valid history: %v", found.Err)
 	}
+	headInvalid := map[string]int{}
+	seenInvalid := map[string]bool{}
 	for _, e := range found.Entries {
-		if e.PathError != nil || e.Rule.Error.Err != nil {
-			return nil, fmt.Errorf("%w: generated file %s does not parse: %v %v", errHarness, e.Path.Name, e.PathError, e.Rule.Error.Err)
+		if e.PathError != nil {
+			return nil, fmt.Errorf("%w: generated file %s does not parse: %v", errHarness, e.Path.Name, e.PathError)
 		}
+		if e.Rule.Error.Err != nil && e.State != discovery.Removed {
+			// pint lists an invalid rule of a changed file twice (glob entry + branch entry:
+			// Rule.IsSame compares the error values by identity): count distinct rules
+			k := fmt.Sprintf("%s:%d", e.Path.Name, e.Rule.Lines.First)
+			if !seenInvalid[k] {
+				seenInvalid[k] = true
+				headInvalid[e.Path.Name]++
+			}
+		}
+	}
+	// rule-level errors must be exactly the invalid rules the generator put there
+	for _, f := range h.Head() {
+		if headInvalid[f.Path] != f.File.InvalidCount() {
+			return nil, fmt.Errorf("%w: %s holds %d invalid rules by construction, pint reports %d rules with errors", errHarness, f.Path, f.File.InvalidCount(), headInvalid[f.Path])
+		}
+		delete(headInvalid, f.Path)
+	}
+	if len(headInvalid) > 0 {
+		return nil, fmt.Errorf("%w: rule errors in files that do not exist at HEAD: %v", errHarness, headInvalid)
 	}
 	var out []Warn
 	var perr error
@@ -403,7 +444,7 @@ func run(c Case, cfg config.Config) (ex expectation, class string, err error) {
 		return ex, "", fmt.Errorf("%w: %v", errHarness, err)
 	}
 	defer repo.Close()
-	got, err := observeInProcess(repo, cfg)
+	got, err := observeInProcess(repo, cfg, c.History)
 	if err != nil {
 		return ex, "", err
 	}
@@ -441,15 +482,30 @@ var templates = []string{
 	`count(%s) or vector(0)`,
 	`label_replace(%s, "a", "$1", "b", "(.*)")`,
 	`%s / ignoring(job) group_left %s`,
+	`%s or %s`,
+	`%s unless on(job) %s`,
+	`count(%s or %s or %s) > 0`,
 }
 
 func exprGen(nameMatcher bool, excluded *int64) func(t *rapid.T, lbl string) string {
 	return func(t *rapid.T, lbl string) string {
 		n := 0
+		// one expression in six selects the SAME metric several times with different
+		// names/matchers (several ALERTS{alertname=..} or several ALERTS_FOR_STATE or
+		// several plain selectors): dependants referenced by the 2nd or 3rd selector
+		same := rapid.IntRange(0, 17).Draw(t, lbl+".same")
 		ref := func() string {
 			n++
 			l := fmt.Sprintf("%s.ref%d", lbl, n)
 			name := names[rapid.IntRange(0, len(names)-1).Draw(t, l+".name")]
+			switch same {
+			case 0:
+				return `ALERTS{alertname="` + name + `"}`
+			case 1:
+				return `ALERTS_FOR_STATE{alertname="` + name + `"}`
+			case 2:
+				return name
+			}
 			switch rapid.IntRange(0, 13).Draw(t, l+".kind") {
 			case 0, 1, 2:
 				return name
@@ -482,6 +538,15 @@ func exprGen(nameMatcher bool, excluded *int64) func(t *rapid.T, lbl string) str
 			}
 		}
 		tpl := templates[rapid.IntRange(0, len(templates)-1).Draw(t, lbl+".tpl")]
+		if same <= 2 && strings.Count(tpl, "%s") < 2 {
+			multi := []string{}
+			for _, x := range templates {
+				if strings.Count(x, "%s") >= 2 {
+					multi = append(multi, x)
+				}
+			}
+			tpl = multi[rapid.IntRange(0, len(multi)-1).Draw(t, lbl+".mtpl")]
+		}
 		args := make([]any, strings.Count(tpl, "%s"))
 		for i := range args {
 			args[i] = ref()
@@ -503,10 +568,13 @@ func profile(nameMatcher bool, excluded *int64) hist.Profile {
 		Weights: map[string]int{
 			"file-add": 1, "file-del": 4, "rename": 2, "rename-edit": 1,
 			"rule-add": 3, "rule-mod": 3, "rule-del": 8, "rule-dup": 1, "rule-swap": 1,
-			"cosmetic": 2, "revert": 1, "replace": 4, "name-del": 5,
+			"cosmetic": 2, "revert": 1, "replace": 4, "name-del": 5, "invalid-add": 2, "invalid-del": 1,
+			"del-dup-first": 3, "consume": 3,
 		},
-		Cosmetics:  true,
-		ChainOneIn: 4,
+		Cosmetics:        true,
+		ChainOneIn:       4,
+		InvalidOneIn:     3,
+		AdjacentDupOneIn: 4,
 	}
 }
 
@@ -543,6 +611,11 @@ func classOf(c Case, ex expectation) string {
 	}
 	if ex.viaMatcher > 0 {
 		fl = append(fl, "name-matcher")
+	}
+	if ex.warnNextToInvalid > 0 {
+		fl = append(fl, "warn-next-to-invalid")
+	} else if ex.invalidAtHead > 0 {
+		fl = append(fl, "invalid")
 	}
 	if c.Bin {
 		fl = append(fl, "bin")
@@ -588,6 +661,8 @@ func TestPropRemoval(t *testing.T) {
 		rec.Count("names_gone_with_dependants", int64(ex.goneWithDeps))
 		rec.Count("names_gone_without_dependants", int64(ex.goneNoDeps))
 		rec.Count("names_replaced_or_reduced", int64(ex.replaced))
+		rec.Count("invalid_rules_at_head", int64(ex.invalidAtHead))
+		rec.Count("expected_warnings_in_files_with_invalid_rule_at_head", int64(ex.warnNextToInvalid))
 		if c.Bin {
 			rec.Count("binary_runs", 1)
 		}
